@@ -50,6 +50,10 @@ type Unit struct {
 	// Lockset: run the static lock-discipline analysis (type contracts protected_by / immutable / ...) over every
 	// function of the unit's packages
 	Lockset bool `json:"lockset,omitempty"`
+	// TaggedRoots: roots of this unit for which only contract clauses count (as the property-level scope "tagged",
+	// per root): their zero-annotation safety sweep belongs to another property or is out of reach (unknown
+	// externals, package-level metrics objects)
+	TaggedRoots []string `json:"tagged_roots,omitempty"`
 }
 
 type PropConfig struct {
@@ -66,6 +70,8 @@ type PropConfig struct {
 	Replays     []string `json:"replays,omitempty"`
 	Lean        []string `json:"lean,omitempty"`
 	AllocBound  bool     `json:"alloc_bound,omitempty"`
+	// EnsuresCover: vacuity covers for the antecedents of root postconditions (ensurescover.go)
+	EnsuresCover bool `json:"ensures_cover,omitempty"`
 	Extra       []string `json:"extra_cmds,omitempty"`
 }
 
@@ -135,6 +141,7 @@ func runUnit(u Unit, cfg *PropConfig, tier string, workdir string, res *checkRes
 	currentPropID = cfg.ID
 	e := NewEngine()
 	e.allocBound = cfg.AllocBound
+	ensuresCoverOn = cfg.EnsuresCover
 	dir := filepath.Join(repoDir, u.Module)
 	t0 := time.Now()
 	if err := e.Load(dir, u.Packages); err != nil {
@@ -178,8 +185,12 @@ func runUnit(u Unit, cfg *PropConfig, tier string, workdir string, res *checkRes
 			continue
 		}
 		e.statesRun = 0
+		tr := time.Now()
 		if err := e.RunRoot(f); err != nil {
 			res.engineErrors = append(res.engineErrors, err.Error())
+		}
+		if os.Getenv("GOVC_VERBOSE") != "" {
+			fmt.Fprintf(os.Stderr, "root %s: explored in %.1fs, %d states, %d obligations so far\n", r, time.Since(tr).Seconds(), e.statesRun, len(e.obligations))
 		}
 	}
 	if u.Lockset {
@@ -216,12 +227,16 @@ func runUnit(u Unit, cfg *PropConfig, tier string, workdir string, res *checkRes
 	if v := os.Getenv("GOVC_TIMEOUT"); v != "" {
 		fmt.Sscanf(v, "%d", &timeout)
 	}
-	if cfg.Scope == "tagged" || u.Scope == "tagged" || u.Scope == "clauses" {
+	if cfg.Scope == "tagged" || u.Scope == "tagged" || u.Scope == "clauses" || len(u.TaggedRoots) > 0 {
 		// this property's check counts contract clauses (and the invariants / preconditions they rest on);
 		// the zero-annotation safety sweep of code reached after them belongs to other properties
+		taggedRoot := map[string]bool{}
+		for _, r := range u.TaggedRoots {
+			taggedRoot[r] = true
+		}
 		var keep []*Obligation
 		for _, o := range e.obligations {
-			if o.Kind == "safety" || o.Kind == "alloc" {
+			if (o.Kind == "safety" || o.Kind == "alloc") && (cfg.Scope == "tagged" || taggedRoot[o.Root]) {
 				continue
 			}
 			if u.Scope == "clauses" && o.Kind == "requires" && strings.Contains(o.Name, ":nonnil.") {
@@ -340,6 +355,7 @@ func (e *Engine) findFunc(short string) *ssaFunc {
 // Check runs one property check and returns the process exit code.
 func Check(id, tier string) int {
 	start := time.Now()
+	activeProperty = id
 	data, err := os.ReadFile(filepath.Join(verifDir, "props", id+".json"))
 	if err != nil {
 		fmt.Fprintf(os.Stderr, "no property config for %s: %v\n", id, err)
@@ -662,6 +678,9 @@ func writeReplay(path, id string, g *group, cfg *PropConfig) bool {
 func (e *Engine) discharge(workdir string, timeout int) {
 	var wg sync.WaitGroup
 	sem := make(chan struct{}, parallelism())
+	// a vacuity cover is alive as soon as one of its instances (paths) is satisfiable: the others need no solver run
+	var coverMu sync.Mutex
+	coverSat := map[string]bool{}
 	for i, o := range e.obligations {
 		if o.Result != nil {
 			continue
@@ -682,6 +701,13 @@ func (e *Engine) discharge(workdir string, timeout int) {
 			}
 			if o.ExpectSat {
 				to = 3 // vacuity covers: only an "unsat" answer matters
+				coverMu.Lock()
+				done := coverSat[o.Name]
+				coverMu.Unlock()
+				if done {
+					o.Result = &SolverResult{Status: "sat", Solver: "cover-alive-on-another-path"}
+					return
+				}
 			}
 			var use []string
 			if o.Kind == "lemma" || strings.Contains(o.Goal.S, "str.contains") {
@@ -689,6 +715,11 @@ func (e *Engine) discharge(workdir string, timeout int) {
 				use = []string{"z3-new", "z3-4", "cvc5"}
 			}
 			r := Solve(workdir, fmt.Sprintf("%s.%d", o.Name, i), q, to, use)
+			if o.ExpectSat && r.Status == "sat" {
+				coverMu.Lock()
+				coverSat[o.Name] = true
+				coverMu.Unlock()
+			}
 			if r.Status == "sat" && o.Hint != nil && !o.ExpectSat {
 				// look for a more realistic counterexample (replay hint); the verdict is already fixed
 				q2 := o.U.Query(append(append([]Term(nil), o.Assumes...), *o.Hint), o.Goal, gv)
